@@ -104,6 +104,18 @@ func Open(dir string, opts ...walOpt) (*WAL, error) {
 		return nil, err
 	}
 
+	// If we fail to open the WAL from here on, release the meta store (and its
+	// file lock) and every segment file opened so far, otherwise a later Open of
+	// the same directory in this process blocks on the lock forever.
+	var opened []io.Closer
+	success := false
+	defer func() {
+		if !success {
+			w.closeSegments(opened)
+			w.metaDB.Close()
+		}
+	}()
+
 	// Load or create metaDB
 	persisted, err := w.metaDB.Load(w.dir)
 	if err != nil {
@@ -157,6 +169,7 @@ func Open(dir string, opts ...walOpt) (*WAL, error) {
 			if err != nil {
 				return nil, err
 			}
+			opened = append(opened, sw)
 			// Set the tail and "reader" for this segment
 			ss := segmentState{
 				SegmentInfo: si,
@@ -178,6 +191,7 @@ func Open(dir string, opts ...walOpt) (*WAL, error) {
 		if err != nil {
 			return nil, err
 		}
+		opened = append(opened, sr)
 
 		// Store the open reader to get logs from
 		ss := segmentState{
@@ -214,6 +228,7 @@ func Open(dir string, opts ...walOpt) (*WAL, error) {
 		if err != nil {
 			return nil, err
 		}
+		opened = append(opened, w)
 		newState.tail = w
 		// Update the segment in memory so we have a reader for the new segment. We
 		// don't need to commit again as this isn't changing the persisted metadata
@@ -250,6 +265,7 @@ func Open(dir string, opts ...walOpt) (*WAL, error) {
 	// Start the rotation routine
 	go w.runRotate()
 
+	success = true
 	return w, nil
 }
 
